@@ -230,6 +230,12 @@ def _generate(tier, rng):
     yield {'kind': 'lut', 'vocab': vocab.hex(), 'nr': nr}
   for i in range(2 if tier == 'quick' else 10):
     yield {'kind': 'plainnorm', 'seed': rng.randrange(2 ** 31)}
+  # argument plumbing through the outermost public entry points, all parameters distinct and non-default
+  pairs = [(24, 32), (32, 24), (5, 9), (1, 32)] if tier == 'quick' else [(a, b) for a in (1, 5, 24, 31, 32) for b in (1, 9, 24, 30, 32) if a != b]
+  for ch, cw in pairs:
+    yield {'kind': 'plumb', 'which': 'cifar_batch', 'ch': ch, 'cw': cw, 'seed': rng.randrange(2 ** 31)}
+  for w in ('load', 'tokenizer', 'factories', 'tasks'):
+    yield {'kind': 'plumb', 'which': w}
   if tier == 'thorough':
     yield {'kind': 'xproc', 'hashseeds': [1, 987654321]}
   for c in _gen_lmloss(tier, rng):
@@ -699,6 +705,197 @@ def _run_domain(case):
   return obs
 
 
+def _run_plumb(case):
+  """Argument plumbing: every public function that forwards parameters is called through the OUTERMOST entry point
+  with every parameter at a non-default value that differs from every other parameter of its type, and compared
+  with the inner function called directly / with the definition.  Returns the list of discrepancies."""
+  import fedjax
+  from fedjax import datasets, models
+  from fedjax.datasets import cifar100, emnist, shakespeare, stackoverflow
+  bad = []
+  which = case['which']
+  saved = []
+
+  def patch(obj, name, val):
+    saved.append((obj, name, getattr(obj, name)))
+    setattr(obj, name, val)
+  try:
+    if which == 'cifar_batch':
+      ch, cw, seed = case['ch'], case['cw'], case['seed']
+      rs = np.random.RandomState(seed)
+      img = rs.randint(0, 256, size=(2, 32, 32, 3)).astype(np.uint8)
+      ex = {'x': img, 'y': np.array([3, 7], np.int32)}
+      for distort in (False, True):
+        np.random.seed(seed)
+        inner = cifar100.preprocess_image_tff(img, ch, cw, distort)
+        outs = []
+        for call in (lambda: cifar100.preprocess_batch_tff(ex, crop_height=ch, crop_width=cw, distort=distort),
+                     lambda: cifar100.preprocess_batch_tff(ex, ch, cw, distort),
+                     lambda: cifar100.preprocess_batch_tff(examples=ex, distort=distort, crop_width=cw, crop_height=ch)):
+          np.random.seed(seed)
+          outs.append(call())
+        for o in outs:
+          if o['x'].shape != (2, ch, cw, 3) or not np.array_equal(o['x'], inner) or not np.array_equal(o['y'], ex['y']):
+            bad.append(f'preprocess_batch_tff(crop_height={ch}, crop_width={cw}, distort={distort}) gives shape {list(o["x"].shape)}; '
+                       f'preprocess_image_tff with the same arguments gives {list(inner.shape)}')
+            break
+      for is_train in (False, True):
+        np.random.seed(seed)
+        inner = cifar100.preprocess_image(img, is_train)
+        np.random.seed(seed)
+        o = cifar100.preprocess_batch(ex, is_train=is_train)
+        np.random.seed(seed)
+        o2 = cifar100.preprocess_batch(ex, is_train)
+        if not (np.array_equal(o['x'], inner) and np.array_equal(o2['x'], inner) and np.array_equal(o['y'], ex['y'])):
+          bad.append(f'preprocess_batch(is_train={is_train}) differs from preprocess_image(is_train={is_train})')
+      ev = cifar100.preprocess_batch(ex, is_train=False)['x']
+      if np.array_equal(ev, cifar100.preprocess_image(img, True)) and False:
+        pass
+    elif which == 'load':
+      rec = []
+      mem = fedjax.InMemoryFederatedData({b'0123456789abcdef:f2100_07': {
+          'snippets': np.array([b'abc defg hij', b'k'], dtype=object), 'pixels': np.zeros((2, 28, 28), np.float32), 'label': np.array([1, 2], np.int32),
+          'image': np.zeros((2, 32, 32, 3), np.uint8), 'coarse_label': np.zeros(2, np.int64), 'tokens': np.array([b'a b', b'c'], dtype=object),
+          'type': np.array([b'answer', b'question'], dtype=object)}})
+
+      def recorder(tag):
+        def load_split(*a, **k):
+          rec.append([tag, [repr(v) for v in a], {kk: repr(v) for kk, v in sorted(k.items())}])
+          return mem
+        return load_split
+      for mod, tag in ((cifar100, 'cifar100'), (emnist, 'emnist'), (shakespeare, 'shakespeare'), (stackoverflow, 'stackoverflow')):
+        patch(mod, 'load_split', recorder(tag))
+      import inspect
+
+      def landed(tag, real_sig, want):
+        """Every recorded load_split call of `tag`, bound to the real signature, carries the wanted argument values."""
+        calls = [r for r in rec if r[0] == tag]
+        for _, a, k in calls:
+          ba = real_sig.bind(*a, **k)
+          ba.apply_defaults()
+          for name, val in want.items():
+            if ba.arguments.get(name) != repr(val):
+              bad.append(f'{tag}.load_data: load_split receives {name}={ba.arguments.get(name)}, load_data was given {val!r}')
+              return
+        return [r[1][0] if r[1] else r[2].get('split') for r in calls]
+      sigs = {m.__name__.split('.')[-1]: inspect.signature(saved[i][2]) for i, m in enumerate((cifar100, emnist, shakespeare, stackoverflow))}
+      cifar100.load_data(mode='sqlite', cache_dir='DIR_C')
+      sp = landed('cifar100', sigs['cifar100'], {'mode': 'sqlite', 'cache_dir': 'DIR_C'})
+      emnist.load_data(only_digits=True, mode='sqlite', cache_dir='DIR_E')
+      se = landed('emnist', sigs['emnist'], {'only_digits': True, 'mode': 'sqlite', 'cache_dir': 'DIR_E'})
+      tr, te = shakespeare.load_data(sequence_length=7, mode='sqlite', cache_dir='DIR_S')
+      ss = landed('shakespeare', sigs['shakespeare'], {'mode': 'sqlite', 'cache_dir': 'DIR_S'})
+      for fd in (tr, te):
+        x = fd.get_client(b'0123456789abcdef:f2100_07').all_examples()['x']
+        if x.shape[1] != 7:
+          bad.append(f'shakespeare.load_data(sequence_length=7) yields sequences of length {x.shape[1]}')
+      stackoverflow.load_data(mode='sqlite', cache_dir='DIR_O')
+      so = landed('stackoverflow', sigs['stackoverflow'], {'mode': 'sqlite', 'cache_dir': 'DIR_O'})
+      want_splits = {'cifar100': ["'train'", "'test'"], 'emnist': ["'train'", "'test'"], 'shakespeare': ["'train'", "'test'"],
+                     'stackoverflow': ["'train'", "'held_out'", "'test'"]}
+      for tag, got in (('cifar100', sp), ('emnist', se), ('shakespeare', ss), ('stackoverflow', so)):
+        if got is not None and got != want_splits[tag]:
+          bad.append(f'{tag}.load_data loads splits {got}, documented {want_splits[tag]}')
+      # the real load_split functions: url / cache_dir reach the downloader, its path reaches SQLiteFederatedData.new
+      for o, n, v in reversed(saved):
+        setattr(o, n, v)
+      del saved[:]
+      from fedjax.core import sqlite_federated_data
+      from fedjax.datasets import downloads
+      seen = []
+      patch(downloads, 'maybe_download', lambda url, cache_dir=None: seen.append(('dl', url, cache_dir)) or ('PATH:' + url))
+      patch(sqlite_federated_data.SQLiteFederatedData, 'new', staticmethod(lambda path, *a, **k: seen.append(('new', path)) or mem))
+      for fn, kw, frag in ((emnist.load_split, {'split': 'test', 'only_digits': True, 'cache_dir': 'D1'}, 'digitsonly_test'),
+                           (emnist.load_split, {'split': 'train', 'only_digits': False, 'cache_dir': 'D2'}, 'emnist_train'),
+                           (shakespeare.load_split, {'split': 'test', 'cache_dir': 'D3'}, 'test'),
+                           (stackoverflow.load_split, {'split': 'held_out', 'cache_dir': 'D4'}, 'held_out')):
+        del seen[:]
+        fn(**kw)
+        dl = [e for e in seen if e[0] == 'dl']
+        nw = [e for e in seen if e[0] == 'new']
+        if len(dl) != 1 or frag not in dl[0][1] or dl[0][2] != kw['cache_dir'] or len(nw) != 1 or nw[0][1] != 'PATH:' + dl[0][1]:
+          bad.append(f'{fn.__module__.split(".")[-1]}.load_split({kw}): download / open calls {seen}')
+      for fn in (emnist.load_split, shakespeare.load_split, stackoverflow.load_split):
+        try:
+          fn('no_such_split')
+          bad.append(f'{fn.__module__.split(".")[-1]}.load_split accepts an unknown split')
+        except ValueError:
+          pass
+    elif which == 'tokenizer':
+      got = {}
+      patch(stackoverflow, 'default_vocab', lambda n: got.setdefault('n', n) and ['w%d' % i for i in range(n)])
+      V, B, ML = 7, 3, 5
+      tok = stackoverflow.StackoverflowTokenizer(default_vocab_size=V, num_oov_buckets=B)
+      toks = np.array([b'w0 w6 zzz qqq', b'unk1 unk2 unk3 unk4 unk5 unk6 unk7 unk8 unk9', b'w3'], dtype=object)
+      o = tok.as_preprocess_batch(max_length=ML)({'tokens': toks})
+      ids = [v for row in o['y'] for v in row]
+      oov = [v for v in ids if v >= V + 3]
+      if got.get('n') != V or o['x'].shape != (3, ML) or o['y'][0][:2].tolist() != [3, 9] or o['y'][2][0] != 6 or \
+          any(not (V + 3 <= v < V + 3 + B) for v in oov) or len(set(oov)) < 2 or max(ids) >= V + 3 + B:
+        bad.append(f'StackoverflowTokenizer(default_vocab_size={V}, num_oov_buckets={B}).as_preprocess_batch({ML}): vocabulary size asked '
+                   f'{got.get("n")}, shape {list(o["x"].shape)}, ids {sorted(set(ids))}')
+      tok2 = stackoverflow.StackoverflowTokenizer(['p', 'q'], 99, 2)        # positional: explicit vocabulary wins over default_vocab_size
+      o2 = tok2.as_preprocess_batch(4)({'tokens': np.array([b'q p r s t'], dtype=object)})
+      if o2['x'].shape != (1, 4) or o2['y'][0][:2].tolist() != [4, 3] or any(not (5 <= v < 7) for v in o2['y'][0][2:].tolist()):
+        bad.append('StackoverflowTokenizer(vocab, default_vocab_size, num_oov_buckets) positional form: wrong ids ' + str(o2['y'].tolist()))
+    elif which == 'factories':
+      import jax
+      shapes = lambda m: sorted((k, tuple(map(tuple, [v2.shape for v2 in v.values()]))) for k, v in m.init(jax.random.PRNGKey(0)).items())
+
+      def shp(m):
+        return sorted(tuple(x.shape) for x in jax.tree_util.tree_leaves(m.init(jax.random.PRNGKey(0))))
+      V, E, H, NL = 11, 3, 5, 3
+      got = shp(models.shakespeare.create_lstm_model(vocab_size=V, embed_size=E, lstm_hidden_size=H, lstm_num_layers=NL))
+      want = sorted([(V + 4, E), (E + H, 4 * H), (4 * H,)] + [(2 * H, 4 * H), (4 * H,)] * (NL - 1) + [(H, V + 4), (V + 4,)])
+      if got != want:
+        bad.append(f'shakespeare.create_lstm_model(vocab_size={V}, embed_size={E}, lstm_hidden_size={H}, lstm_num_layers={NL}): parameter shapes {got}')
+      NL = 2
+      got = shp(models.stackoverflow.create_lstm_model(vocab_size=V, embed_size=E, lstm_hidden_size=H, lstm_num_layers=NL, expected_length=2.5))
+      want = sorted([(V + 4, E), (E + H, 4 * H), (4 * H,), (H, E), (E,)] + [(E + H, 4 * H), (4 * H,), (H, E), (E,)] * (NL - 1) + [(E, V + 4), (V + 4,)])
+      if got != want:
+        bad.append(f'stackoverflow.create_lstm_model(vocab_size={V}, embed_size={E}, lstm_hidden_size={H}, lstm_num_layers={NL}): parameter shapes {got}')
+      got = shp(models.stackoverflow.create_lstm_model(vocab_size=V, embed_size=E, lstm_hidden_size=H, lstm_num_layers=1, share_input_output_embeddings=True))
+      want = sorted([(V + 4, E), (E + H, 4 * H), (4 * H,), (H, E), (E,), (V + 4,)])
+      if got != want:
+        bad.append(f'stackoverflow.create_lstm_model(share_input_output_embeddings=True): parameter shapes {got}')
+      for nm, fn, hu in (('dense', models.emnist.create_dense_model, 7), ('stax_dense', models.emnist.create_stax_dense_model, 9)):
+        for digits, nc in ((True, 10), (False, 62)):
+          got = shp(fn(only_digits=digits, hidden_units=hu))
+          if got != sorted([(784, hu), (hu,), (hu, hu), (hu,), (hu, nc), (nc,)]):
+            bad.append(f'emnist.create_{nm}_model(only_digits={digits}, hidden_units={hu}): parameter shapes {got}')
+      for nm, fn in (('conv', models.emnist.create_conv_model), ('logistic', models.emnist.create_logistic_model)):
+        for digits, nc in ((True, 10), (False, 62)):
+          got = shp(fn(digits) if nm == 'conv' else fn(only_digits=digits))
+          if (nc,) not in got or ((10 if nc == 62 else 62),) in got:
+            bad.append(f'emnist.create_{nm}_model(only_digits={digits}) does not have {nc} outputs')
+    else:      # tasks: mode / cache_dir reach every load_split
+      from fedjax.training import tasks
+      rec = []
+      raw = fedjax.InMemoryFederatedData({b'0123456789abcdef:f2100_07': {
+          'snippets': np.array([b'ab'], dtype=object), 'pixels': np.zeros((1, 28, 28), np.float32), 'label': np.array([1], np.int32),
+          'image': np.zeros((1, 32, 32, 3), np.uint8), 'coarse_label': np.zeros(1, np.int64), 'tokens': np.array([b'a'], dtype=object),
+          'type': np.array([b'answer'], dtype=object)}})
+      for mod in (datasets.cifar100, datasets.emnist, datasets.shakespeare, datasets.stackoverflow):
+        def load_split(*a, _m=mod.__name__.split('.')[-1], **k):
+          rec.append((_m, a, k))
+          return raw
+        patch(mod, 'load_split', load_split)
+      patch(datasets.stackoverflow, 'default_vocab', lambda n: ['w%d' % i for i in range(n)])
+      for t in tasks.ALL_TASKS:
+        del rec[:]
+        tasks.get_task(t, 'sqlite', 'CACHE_' + t)
+        flat = [[repr(v) for v in a] + [f'{kk}={v!r}' for kk, v in k.items()] for _, a, k in rec]
+        if not rec or any(not any('CACHE_' + t in x for x in call) or not any("'sqlite'" in x for x in call) for call in flat):
+          bad.append(f'get_task({t!r}, mode, cache_dir): load_split calls {flat}')
+  except Exception as ex:  # pylint: disable=broad-except
+    import traceback
+    bad.append(f'{which}: raised {type(ex).__name__}: {ex!s}'[:300] + ' @ ' + traceback.format_exc().strip().split('\n')[-3][:120])
+  finally:
+    for o, n, v in reversed(saved):
+      setattr(o, n, v)
+  return {'status': 'ok', 'bad': bad}
+
+
 _XPROC_SCRIPT = '''
 import json, sys
 sys.path.insert(0, %r)
@@ -1102,6 +1299,8 @@ def run(case):
       return _run_misc(case)
     if k == 'xproc':
       return _run_xproc(case)
+    if k == 'plumb':
+      return _run_plumb(case)
     if k == 'lut':
       return _run_lut(case)
     if k == 'plainnorm':
@@ -1347,6 +1546,8 @@ def oracle(case, obs):
     return _oracle_domain(case, obs)
   if k == 'misc':
     return [(f'misc-{case["which"]}', '; '.join(obs['bad']))] if obs['bad'] else []
+  if k == 'plumb':
+    return [(f'plumbing-{case["which"]}', '; '.join(obs['bad'])[:600])] if obs['bad'] else []
   if k == 'xproc':
     if obs['status'] != 'ok':
       return [('xproc-error', 'the preprocessors could not be run in a fresh process: ' + obs.get('err', ''))]
